@@ -93,6 +93,10 @@ def _selector(rnd, i, tag="r"):
         return f"a[title=\"t{i}\"]{base}"
     if k == 4:
         return f"{base}, .alt{i}"
+    if k == 5:
+        # long selector lists (well over 60 characters), two of which may share a long common beginning
+        return (f"main article.content-area section.card-grid div.card-body p.lead-paragraph{base}, "
+                f"main article.content-area section.card-grid div.card-body p.lead-paragraph.alt{i} > span")
     return base
 
 
@@ -115,9 +119,14 @@ def make_sheet(rnd, premium=False, default_bg=(255, 255, 255), rich=False, n_rul
     def new_var(value):
         # custom property names are case-sensitive: some names use upper-case letters, and some have a twin that differs only
         # in letter case and holds another value
-        style = rnd.randrange(5)
+        style = rnd.randrange(7)
         base = f"{tag}c{vcount[0]}"
         name = "--" + (base if style < 2 else base.replace("c", "Color", 1) if style < 4 else base.upper())
+        if style == 5:
+            # custom property names are identifiers: letters beyond ASCII are as good as any
+            name = "--" + base + rnd.choice(["-gr\u00f6\u00dfe", "-\u0446\u0432\u0435\u0442", "-\u8272", "-couleur-fonc\u00e9e"])
+        elif style == 6:
+            name = "--" + rnd.choice(["_", "-", "x_"]) + base + rnd.choice(["_1", "--alt", "-2x"])
         vcount[0] += 1
         var_defs.append((name, value))
         if style in (3, 4) and allowed("var-case-twin"):
@@ -294,13 +303,18 @@ def make_sheet(rnd, premium=False, default_bg=(255, 255, 255), rich=False, n_rul
     if rnd.random() < 0.15 and body:
         # variables defined *after* their use
         pending = items + body
+    sib_count = [0]
     extras = [x for x in RICH_TOP if not x.startswith("@import")] if rich else ["/* section */", "@font-face { font-family: X; src: url(x.woff) }", ".plain { margin: 0 }"]
     for depth, sel, parts in pending:
         if rnd.random() < (0.35 if rich else 0.12):
             out.append(rnd.choice(extras))
         rule = _fmt_rule(rnd, sel, parts)
         for d in range(depth):
-            rule = f"{rnd.choice(MEDIA)} {{{nl if rnd.random() < .7 else ' '}{rule}{nl if rnd.random() < .7 else ' '}}}"
+            # blocks also hold siblings without a text colour, before and after the rule: plain rules, comments, and further
+            # at-rules (with nothing for the tool to do inside them)
+            pre = _sibling(rnd, sib_count) + " " if rnd.random() < 0.25 else ""
+            post = " " + _sibling(rnd, sib_count) if rnd.random() < 0.4 else ""
+            rule = f"{rnd.choice(MEDIA)} {{{nl if rnd.random() < .7 else ' '}{pre}{rule}{post}{nl if rnd.random() < .7 else ' '}}}"
         out.append(rule)
     if rich and rnd.random() < 0.5:
         out.append(rnd.choice(extras))
@@ -308,6 +322,13 @@ def make_sheet(rnd, premium=False, default_bg=(255, 255, 255), rich=False, n_rul
     sh.features = {k: sorted(v) for k, v in feats.items()}
     sh.n_rules = len(items)
     return sh
+
+
+def _sibling(rnd, counter):
+    counter[0] += 1
+    k = counter[0]
+    return rnd.choice([f".sib{k} {{ margin: 0 }}", f"@media (min-width: {k}px) {{ .sib{k} {{ padding: 1px }} }}", "/* sibling note */",
+                       f"@supports (display: grid) {{ @media print {{ .sib{k} {{ margin: 0 }} }} }}", f".sib{k}{{padding:2rem}} .sib{k}b{{margin:1px}}"])
 
 
 def _fmt_rule(rnd, sel, parts):
